@@ -147,6 +147,7 @@ type oblResult struct {
 	output   string
 	allStats map[string]string
 	outside  *oblResult
+	preRun   bool // decided statically, no SMT query
 }
 
 type knownFinding struct {
@@ -209,6 +210,9 @@ func runObligations(cfg runCfg, items []*oblResult) {
 	sem := make(chan struct{}, 6)
 	var wg sync.WaitGroup
 	for _, it := range items {
+		if it.preRun {
+			continue
+		}
 		wg.Add(1)
 		sem <- struct{}{}
 		go func(it *oblResult) {
@@ -411,6 +415,23 @@ func cmdCheck(args []string) int {
 	}
 	if len(items) == 0 {
 		return fail("vacuous: no obligations generated for " + prop)
+	}
+	// dispatch tables: every slot function must refine the slot's fnspec
+	for name, fs := range prog.FnSpecs {
+		if !fs.Slots || !hasProp(fs.Props, prop) || os.Getenv("GOCV_FUNCS") != "" {
+			continue
+		}
+		missing, trusted, total := prog.TableCheck(fs.Pkg, name)
+		o := &vc.Obligation{Name: "table-complete:" + name, Kind: "table-complete", Props: fs.Props, Src: fmt.Sprintf("all %d functions stored by init of %s refine %s", total, fs.Pkg, name)}
+		it := &oblResult{Name: o.Name, Kind: o.Kind, Src: o.Src, obl: o, Status: "unsat", Solver: "static", Expect: "unsat", ok: len(missing) == 0 && total > 0, preRun: true}
+		if !it.ok {
+			it.Status = "missing"
+			it.output = "functions in the dispatch table without a contract refining " + name + ": " + strings.Join(missing, ", ")
+		}
+		for _, t := range trusted {
+			assumed[fs.Pkg+"::"+t+" (dispatch-table entry whose refinement of "+name+" is trusted, not verified)"] = true
+		}
+		items = append(items, it)
 	}
 	known, _ := loadKnown()
 	for _, it := range items {
